@@ -297,7 +297,11 @@ func (p *scriptPlugin) Execute(ctx context.Context, req any) (any, *plugins.Erro
 	}
 	if o.Overrun {
 		<-ctx.Done() // outlive the action's timeout
+		// the engine has abandoned this call: from here on it is no longer "in flight". The exit event is logged at
+		// once (with CtxDone) and the call lingers a little longer, as a real plugin noticing its cancellation would.
+		p.tr.add(Event{L: "exit", Obj: obj, Plan: plan, Tag: r.T, Call: k, Out: o.Resp + "/" + o.Err, CtxDone: ctx.Err() != nil})
 		time.Sleep(200 * time.Microsecond)
+		return nil, &plugins.Error{Code: 3, Message: "scripted overrun: context done"}
 	}
 	var resp any
 	switch o.Resp {
